@@ -29,7 +29,7 @@ func genC03(r *core.Rand, env *core.Env, run int) *Scenario {
 	ex, _ := json.Marshal(lsExtra{Aim: aim})
 	sc.Extra = ex
 	fams := []familyGen{genStringCmd, genListCmd, genHashCmd, genSetCmd, genZSetCmd, genStreamCmd}
-	nc := 1 + r.Intn(2)
+	nc := 1 + r.Intn(3)
 	for ci := 0; ci < nc; ci++ {
 		g := newLsGen(r, env, fmt.Sprintf("c%d:", ci), 1, aim)
 		g.keys = keyPool(r, g.prefix, 2+r.Intn(4), r.Bool(0.3))
@@ -46,8 +46,14 @@ func genC03(r *core.Rand, env *core.Env, run int) *Scenario {
 			}
 		}
 		g.try(bs("ping", "end"))
+		if r.Bool(0.15) && len(g.steps) > 6 {
+			// the client vanishes in the middle of a pipelined batch: what it received
+			// until then must still be the in-order prefix of the replies
+			cut := 3 + r.Intn(len(g.steps)-4)
+			g.steps = append(append(append([]Step{}, g.steps[:cut]...), Step{Kind: "close", Tag: "abrupt"}), g.steps[cut:]...)
+		}
 		sc.Clients = append(sc.Clients, ClientProg{Name: fmt.Sprintf("c%d", ci), Role: "owner", Steps: g.steps,
-			Pipeline: pick(r, []int{1, 2, 5, 10, 50}), Chunked: r.Bool(0.5)})
+			Pipeline: pick(r, []int{1, 2, 5, 10, 50}), Chunked: r.Bool(0.5), WriteYield: r.Bool(0.5)})
 	}
 	return sc
 }
